@@ -1093,7 +1093,7 @@ def foreign_case(rng, rows, ncols, comps, force=None):
             # a data page without any value is legal: put one at the start, in the middle or at the end of a chunk
             g = rng.randrange(len(pages))
             pages[g].insert(rng.randrange(len(pages[g]) + 1), 0)
-        cols.append({"codec": force.get("codec") or rng.choice(CODECS), "literal": rng.random() < 0.5, "pages": pages,
+        cols.append({"codec": force.get("codec") or rng.choice(CODECS), "literal": rng.random() < 0.4, "variant": rng.randrange(15), "pages": pages,
                      "seg": force.get("seg") or rng.choice(SEG_POLICIES), "pad": rng.randrange(16), "stats": rng.random() < 0.5,
                      "extras": rng.random() < 0.3})
     return {"rows": rows, "rgsplit": rgsplit, "cols": cols, "extras": rng.random() < 0.5, "seed": rng.randrange(1 << 30),
@@ -1141,7 +1141,8 @@ def c04():
             rows = [big_record(ck.rng, p.schema, 30, False) for _ in range(ck.rng.choice([70, 200, 600]))]
             k = len(rows)
             fc = {"rows": rows, "rgsplit": [k - k // 3, k // 3], "extras": True, "seed": ck.rng.randrange(1 << 30),
-                  "cols": [{"codec": ck.rng.choice(CODECS), "literal": ck.rng.random() < 0.5, "pages": [[k - k // 3 - 5, 5], [k // 3]],
+                  "cols": [{"codec": ck.rng.choice(CODECS), "literal": ck.rng.random() < 0.4, "variant": ck.rng.randrange(15),
+                            "pages": ([[k - k // 3 - 5, 5], [k // 3]] if b % 3 else [[1] * (k - k // 3), [k // 3]]),   # every third file: one-record pages
                             "seg": ck.rng.choice(["rand", "bp", "rle1", "greedy"]), "pad": ck.rng.randrange(16), "stats": True, "extras": False}
                            for _ in range(ncols)]}
             p.cases.append({"page": 1000, "codec": "snappy", "poff": ck.rng.randrange(16), "ops": [], "foreign": fc, "reads": [{"mode": "chunk", "chunk": 7}]})
